@@ -21,6 +21,7 @@
 #include <assert.h>
 #include <ctype.h>
 #include <errno.h>
+#include <limits.h>
 #include <stdarg.h>
 #include <stdbool.h>
 #include <stddef.h>
@@ -782,7 +783,25 @@ static void scan(scanner_t *scnp)
 		VNAPROPERTY_GETCHAR(scnp);
 	    } while (isdigit(scnp->scn_cur));
 	    *scnp->scn_position = '\000';
-	    scnp->u.scn_int = strtol(scnp->scn_text, NULL, 10);
+	    {
+		const int saved_errno = errno;
+		long value;
+		bool overflow;
+
+		/*
+		 * A subscript has to fit in an int, with room for the
+		 * length of the list it addresses.
+		 */
+		errno = 0;
+		value = strtol(scnp->scn_text, NULL, 10);
+		overflow = errno == ERANGE || value > INT_MAX - 1;
+		errno = saved_errno;
+		if (overflow) {
+		    scnp->scn_token = T_ERROR;
+		    return;
+		}
+		scnp->u.scn_int = value;
+	    }
 	    scnp->scn_token = T_INT;
 	    return;
 	}
